@@ -40,6 +40,9 @@ class Check(PropertyCheck):
             if i % 10 == 9:
                 yield self.env_scenario(rng)
                 continue
+            if i == 6:
+                yield Scenario(["new", "mark float32 0"], {"kind": "raiser", "before": 2, "after": 2, "observers": 3})
+                continue
             if i % 20 == 14:
                 # an episode a user observer aborts by raising; the caller resets at once (seeds divisible by 3 do)
                 yield Scenario(["new", f"mark raiser {3 * rng.randint(0, 10**5)}"], {"kind": "raiser", "before": 2, "after": 2, "observers": 3})
@@ -162,6 +165,24 @@ class Check(PropertyCheck):
     def oracle(self, impl, scenario, index, line, out, ctx):
         """Shadow world: fresh real objects that only ever see the events after the last reset."""
         res = []
+        if line.startswith("mark float32"):
+            # durations beyond 2**24: a freshly built EarliestStartTimeObserver accumulates its float32 start times operation by
+            # operation (rounding at every step), its reset() recomputes them from exact integers - the two differ (a recorded finding)
+            import numpy as _np
+            import jsl as _jsl
+            from job_shop_lib.dispatching.feature_observers import EarliestStartTimeObserver
+            inst_ = _jsl.JobShopInstance([[_jsl.Operation(0, 16777217), _jsl.Operation(1, 1), _jsl.Operation(0, 5)]], name="f32")
+            d_ = _jsl.Dispatcher(inst_)
+            o_ = EarliestStartTimeObserver(d_)
+            fresh_ = {k: v.copy() for k, v in o_.features.items()}
+            for op_ in inst_.jobs[0][:2]:
+                d_.dispatch(op_, op_.machines[0])
+            d_.reset()
+            for k, v in o_.features.items():
+                if not _np.array_equal(v, fresh_[k]):
+                    return [("est-float32-reset-vs-fresh", f"job [16777217, 1, 5]: EarliestStartTimeObserver {k.name.lower()} after reset "
+                             f"{v.ravel().tolist()}, freshly built {fresh_[k].ravel().tolist()}")]
+            return res
         if line.startswith("mark raiser"):
             import oracles as _or
             return _or.raiser_episode(int(line.split()[2]))["C12"]
